@@ -121,6 +121,10 @@ def gen_chain(rng):
 
 
 def ctx_cases():
+    return [dict(c, **{"async": a}) for a in (False, True) for c in _ctx_cases()]
+
+
+def _ctx_cases():
     """the SDK's own default stack (Context::resolver(), real HTTP client) against a loopback server that redirects"""
     return [{"kind": "ctx", "allowed": ["127.0.0.1:{port}"], "allow_redirects": True, "location": "http://other.example.invalid/x"},
             {"kind": "ctx", "allowed": ["http://127.0.0.1:{port}", "*.example.org"], "allow_redirects": True, "location": "https://example.org/"},
@@ -136,7 +140,7 @@ def oracle_ctx(ctx, c, r, stats):
     hop0_ok = any("127.0.0.1:{port}" in p for p in c["allowed"])
     want_served = 1 if hop0_ok else 0
     if not (r["r"] == "err" and r.get("kind") == "UriDisallowed" and len(r["served"]) == want_served):
-        ctx.report_violation(c, f"default resolver stack with allow-list {c['allowed']}: the request chain /start -> {c['location']!r} ended with "
+        ctx.report_violation(c, f"default {'async' if c.get('async') else 'sync'} resolver stack (Context::resolver{'_async' if c.get('async') else ''}()) with allow-list {c['allowed']}: the request chain /start -> {c['location']!r} ended with "
                                 f"{r['r']}:{r.get('kind') or r.get('status')} after {len(r['served'])} requests to the local server "
                                 f"(expected UriDisallowed after {want_served})")
 
